@@ -2067,9 +2067,19 @@ func (c *Conn) bufferHandshakeRecord(
 	markPacketAsValid func() bool,
 ) (packetOutcome, bool, bool) {
 	// Once the handshake is complete the peer has nothing new to say in
-	// unprotected handshake messages: they are still needed to recognise a
-	// retransmitted final flight, but no new message is kept (see below).
+	// unprotected handshake messages. DTLS 1.2 still needs them to recognise a
+	// retransmitted final flight, but keeps no new message (see below).
+	// DTLS 1.3 recognises retransmissions by their protected records, so an
+	// unprotected record is dropped outright: a forged one must neither reach
+	// the post-handshake state machine nor move the reassembly sequence.
 	established := c.handshakeEstablished != nil && c.isHandshakeCompletedSuccessfully()
+	if established && header.Epoch == 0 && len(buf) > 0 &&
+		protocol.ContentType(buf[0]) == protocol.ContentTypeHandshake &&
+		dtlsstate.CommonState(c.state).LocalVersion.Equal(protocol.Version1_3) {
+		c.log.Debug("discarded unprotected handshake record after the handshake")
+
+		return packetOutcome{}, true, false
+	}
 
 	c.syncFragmentBufferHandshakeSequence()
 	isHandshake, isRetransmit, err := c.fragmentBuffer.Push(bytes.Clone(buf))
